@@ -117,14 +117,16 @@ def finiteEntry (f0 nu A B C pth l r se pl pr : Rat) : FitEntry :=
   { fss0 := some f0, nu := some nu, A := some A, B := some B, C := some C, pth := some pth,
     left := some l, right := some r, se := some se, pLeft := pl, pRight := pr }
 
+set_option linter.unnecessarySeqFocus false in
 /-- 'Curve fitting failed.' exactly when some fitted parameter is NaN -/
 theorem status_curve_fit_failed_iff (e : FitEntry) :
     fitStatus e = .curveFitFailed ↔
       (e.fss0 = none ∨ e.nu = none ∨ e.A = none ∨ e.B = none ∨ e.C = none) := by
   unfold fitStatus
   rcases e with ⟨_ | f0, _ | nu, _ | A, _ | B, _ | C, _ | pth, _ | l, _ | r, _ | se, pl, pr⟩ <;>
-    (simp; split_ifs <;> simp)
+    simp <;> split_ifs <;> simp
 
+set_option linter.unnecessarySeqFocus false in
 /-- 'NaN threshold estimate or uncertainty.' exactly when the parameters are finite and one of
     the four reported numbers is NaN -/
 theorem status_nan_iff (e : FitEntry) :
@@ -133,7 +135,7 @@ theorem status_nan_iff (e : FitEntry) :
       (e.pth = none ∨ e.left = none ∨ e.right = none ∨ e.se = none) := by
   unfold fitStatus
   rcases e with ⟨_ | f0, _ | nu, _ | A, _ | B, _ | C, _ | pth, _ | l, _ | r, _ | se, pl, pr⟩ <;>
-    (simp; split_ifs <;> simp)
+    simp <;> split_ifs <;> simp
 
 section finite
 variable (f0 nu A B C pth l r se pl pr : Rat)
